@@ -238,12 +238,14 @@ func H12_bytes() {
 	// thorough: two after each prefix, through both APIs and every back end
 	n := 1
 	switch {
+	case sv.Thorough() && pre == "" && sv.Choice("three", 2) == 1:
+		n = 3 // three arbitrary positions on their own (thorough)
 	case sv.Thorough() || pre == "":
 		n = 1 + sv.Choice("len", 2)
 	}
 	src := pre + hx.AnyInput(n)
 	api := 1
-	if sv.Thorough() {
+	if sv.Thorough() && n < 3 {
 		api = sv.Choice("api", 2)
 	}
 	cls := sv.Outcome(func() {
